@@ -411,3 +411,43 @@ class Observer:
         v = pkt["ver"]
         want = AESGCM(RETRY_KEY[v]).encrypt(RETRY_NONCE[v], b"", pseudo)
         return want == pkt["tag"]
+
+
+# ---------------------------------------------------------------- encryptor
+def enc_var(v, size=None):
+    """QUIC variable-length integer (RFC 9000 section 16); size forces a longer encoding."""
+    if size is None:
+        size = 1 if v < 64 else 2 if v < 16384 else 4 if v < (1 << 30) else 8
+    prefix = {1: 0, 2: 1, 4: 2, 8: 3}[size]
+    return ((prefix << (8 * size - 2)) | v).to_bytes(size, "big")
+
+
+def build_packet(keys, ptype, version, dcid, scid, pn, payload, pnlen=None, token=b"", key_phase=0,
+                 reserved=0, fixed=1):
+    """Protect one packet (RFC 9001 section 5): returns the protected bytes."""
+    if pnlen is None:
+        pnlen = 4 if len(payload) < 4 else 2
+    pnb = (pn & ((1 << (8 * pnlen)) - 1)).to_bytes(pnlen, "big")
+    if ptype == "1rtt":
+        first = (fixed << 6) | (reserved & 0x18) | (key_phase << 2) | (pnlen - 1)
+        head = bytes([first]) + dcid
+        mask_bits = 0x1F
+    else:
+        tbits = {v: k for k, v in LONG_TYPES[version].items()}[ptype]
+        first = 0x80 | (fixed << 6) | (tbits << 4) | (reserved & 0x0C) | (pnlen - 1)
+        head = bytes([first]) + struct.pack(">I", version) + bytes([len(dcid)]) + dcid + bytes([len(scid)]) + scid
+        if ptype == "initial":
+            head += enc_var(len(token)) + token
+        head += enc_var(pnlen + len(payload) + 16, 2)
+        mask_bits = 0x0F
+    header = head + pnb
+    ct = keys.seal(header, pn, payload)
+    pn_off = len(head)
+    body = pnb + ct
+    sample = body[4:20]
+    m = keys.mask(sample)
+    out = bytearray(header + ct)
+    out[0] ^= m[0] & mask_bits
+    for i in range(pnlen):
+        out[pn_off + i] ^= m[1 + i]
+    return bytes(out)
